@@ -50,21 +50,26 @@ def run_root(task):
     anc = ancestors_of(start)
 
     def run_path(I):
-        marks = {}
+        marks = {}          # path of the marker -> Z3 int: 0 absent, 1 a regular file (linked worktree, submodule), 2 a directory
         for i, a in enumerate(anc):
             for m in (b'.git', b'.hg'):
-                marks[(a.rstrip(b'/') + b'/' + m)] = I.fresh_bool('%s_%d' % (m.decode().strip('.'), i))
+                marks[(a.rstrip(b'/') + b'/' + m)] = I.fresh_int('%s_%d' % (m.decode().strip('.'), i), 0, 2)
         holder['marks'] = marks
         asked = []
         holder['asked'] = asked
 
-        def is_dir(I2, a, ci, dt):
-            p = bytes(as_sstr(I2, a[0]).b)
-            asked.append(p)
-            if p not in marks:
-                raise EngineError('is_dir asked about %r, which is not <ancestor>/.git or /.hg' % p)
-            return marks[p]
-        I.stubs['Path::is_dir'] = is_dir
+        def probe(pred):
+            def stub(I2, a, ci, dt):
+                p = bytes(as_sstr(I2, a[0]).b)
+                asked.append(p)
+                if p not in marks:
+                    raise EngineError('the file system was asked about %r, which is not <ancestor>/.git or /.hg' % p)
+                return pred(marks[p])
+            return stub
+        I.stubs['Path::is_dir'] = probe(lambda k: k == 2)
+        I.stubs['Path::is_file'] = probe(lambda k: k == 1)
+        I.stubs['Path::exists'] = probe(lambda k: k != 0)
+        I.stubs['Path::try_exists'] = lambda I2, a, ci, dt: Ok(probe(lambda k: k != 0)(I2, a, ci, dt))
         return I.call_fn(f, [new_string(I, start)])
 
     def viol(I, cond, role, summary):
@@ -77,7 +82,7 @@ def run_root(task):
             m = I.solver.model()
             roles.add(role)
             out['violations'].append(dict(role=role, summary=summary, fsroot='root', start=start.decode(),
-                                          marks={k.decode(): bool(mval(m, v)) for k, v in holder['marks'].items()}))
+                                          marks={k.decode(): int(mval(m, v)) for k, v in holder['marks'].items()}))
 
     for I, pk, val in explore(prog, models.M, run_path, stats=stats, max_paths=20000):
         if pk == 'panic':
@@ -85,17 +90,27 @@ def run_root(task):
             viol(I, True, 'root-panic', 'panic: %s' % val.msg[:120])
             continue
         marks = holder['marks']
-        has = [z3.Or(marks[a.rstrip(b'/') + b'/.git'], marks[a.rstrip(b'/') + b'/.hg']) for a in anc]
+
+        def mk(a, rg, rh):
+            g, h = marks[a.rstrip(b'/') + b'/.git'], marks[a.rstrip(b'/') + b'/.hg']
+            return z3.Or(g == 2 if rg == 'dir' else g != 0, h == 2 if rh == 'dir' else h != 0)
+        # A `.git` / `.hg` that is a regular file marks a linked worktree or a submodule checkout; whether that
+        # makes the directory a root of its own is not fixed by the property, so every reading is accepted
+        # (per marker: only a directory counts / anything counts): the root must be the nearest
+        # ancestor-or-self that is marked under ONE of the four readings, the same reading for all ancestors.
+        readings = [(rg, rh) for rg in ('dir', 'any') for rh in ('dir', 'any')]
+        has = {r: [mk(a, *r) for a in anc] for r in readings}
         if val.v != 0:
-            viol(I, zor(has), 'root-not-found-although-marked', 'Err although an ancestor holds .git/.hg')
+            viol(I, zor(has[('dir', 'dir')]), 'root-not-found-although-marked', 'Err although an ancestor holds a .git/.hg directory')
         else:
             got = bytes(as_sstr(I, val.f[0]).b)
             if got not in anc:
                 viol(I, True, 'root-not-an-ancestor', 'root %r is not an ancestor of %r' % (got, start))
             else:
                 k = anc.index(got)
-                viol(I, z3.Not(has[k]), 'root-without-marker', 'root %r holds neither .git nor .hg' % got)
-                viol(I, zor(has[:k]) if k else False, 'root-not-nearest', 'a nearer ancestor than %r holds .git/.hg' % got)
+                viol(I, z3.Not(has[('any', 'any')][k]), 'root-without-marker', 'root %r holds neither .git nor .hg' % got)
+                nearest = [zand([has[r][k]] + [z3.Not(x) for x in has[r][:k]]) for r in readings]
+                viol(I, z3.Not(zor(nearest)), 'root-not-nearest', 'a nearer ancestor than %r holds .git/.hg' % got)
         out['cover']['root'] = out['cover'].get('root', 0) + 1
     out.update(Agg(PROP, 'x').stats_from(stats))
     return out
@@ -241,32 +256,37 @@ def confirm_root(binary, prop, v, idx):
     try:
         deepest = os.path.join(d, start.decode().lstrip('/'))
         os.makedirs(deepest, exist_ok=True)
-        want_root = None
+        kinds = {}
         for a in ancestors_of(start):
             rel = a.decode().lstrip('/')
             for m in ('.git', '.hg'):
-                if v['marks'].get((a.rstrip(b'/') + b'/' + m.encode()).decode()):
+                kind = v['marks'].get((a.rstrip(b'/') + b'/' + m.encode()).decode()) or 0
+                kinds[(a, m)] = kind
+                if kind == 2:
                     os.makedirs(os.path.join(d, rel, m), exist_ok=True)
-                    if want_root is None:
-                        want_root = a
+                elif kind == 1:
+                    os.makedirs(os.path.join(d, rel), exist_ok=True)
+                    open(os.path.join(d, rel, m), 'w').write('gitdir: elsewhere\n')
+        roots = []               # the nearest marked ancestor under each of the four readings (None: no root)
+        for rg in (2, 1):
+            for rh in (2, 1):
+                roots.append(next((a for a in ancestors_of(start) if kinds[(a, '.git')] >= rg or kinds[(a, '.hg')] >= rh), None))
         open(os.path.join(deepest, 'f.py'), 'w').write('# <block name="r">\nx\n# </block>\n')
         r = run_blockwatch(binary, deepest, ['list', '**/f.py'], stdin=b'')
     finally:
         shutil.rmtree(d, ignore_errors=True)
     v['observed'] = dict(code=r['code'], stdout=r['stdout'][:300], stderr=r['stderr'][-300:])
-    if want_root is None:
-        # the sandbox's own ancestors (/var/tmp ...) hold no repository: an error is expected
-        v['expected'] = 'error: no repository root'
-        v['confirmed'] = r['code'] == 0
-    else:
-        rel = start[len(want_root.rstrip(b'/')) + 1:].decode() if start != want_root else ''
-        key = (rel + '/' if rel else '') + 'f.py'
-        v['expected'] = 'report key %s' % key
-        try:
-            keys = list(json.loads(r['stdout']).keys())
-        except ValueError:
-            keys = None
-        v['confirmed'] = keys != [key]
+    def key_for(root):
+        rel = start[len(root.rstrip(b'/')) + 1:].decode() if start != root else ''
+        return (rel + '/' if rel else '') + 'f.py'
+    try:
+        keys = list(json.loads(r['stdout']).keys())
+    except ValueError:
+        keys = None
+    ok_keys = [[key_for(x)] for x in roots if x is not None]
+    err_ok = any(x is None for x in roots)
+    v['expected'] = ' or '.join(['report key %s' % k[0] for k in ok_keys] + (['an error: no repository root'] if err_ok else []))
+    v['confirmed'] = not (keys in ok_keys or (err_ok and r['code'] != 0))
     if v['confirmed']:
         v['replay'] = save_replay(prop, 'fsroot-%s-%d' % (v['role'], idx), {'layout.json': json.dumps(v, default=str).encode()},
                                   "list '**/f.py' (started in %s)" % v['start'], v['expected'] + '; ' + v['summary'], v)
